@@ -2,7 +2,7 @@
 
 Bounded-exhaustive enumeration (E3), differential against an independent region computation.
 
-For every module of a corpus (all ``mc.progen`` programs up to a size bound + 17 hand-written modules
+For every module of a corpus (all ``mc.progen`` programs up to a size bound + 18 hand-written modules
 with if/elif/else, for/while...else, try/except/else/finally, match, nested / decorated / conditional
 defs and classes, ``if __name__ == "__main__":`` and ``if TYPE_CHECKING:`` blocks) and every exclusion
 configuration of a stated finite product
@@ -41,14 +41,6 @@ LEVEL = "exploration"
 
 
 # ------------------------------------------------------------------ configurations
-def element_key(placement, flags, only, no):
-    """Elements of a configuration: markers (disabled ones marked), only names, no names."""
-    en = {"pragma": flags[0], "pynguin": flags[1]}
-    els = [("marker" if en[k] else "marker-off", ln, k) for ln, k in placement]
-    els += [("only", n) for n in only] + [("no", n) for n in no]
-    return tuple(els)
-
-
 def sub_configs(cfg):
     placement, flags, only, no = cfg
     for i in range(len(placement)):
@@ -153,11 +145,9 @@ class ModuleRun:
             return "none", "none"
         return "+".join(sorted(set(kinds))), "+".join(sorted(set(cons)))
 
-    def check(self, cfg, owned=True):
+    def check(self, cfg):
         col = self.col
         obs, exp, viol = self.result(cfg)
-        if not owned:
-            return
         col.count("evaluations")
         placement, flags, only, no = cfg
         changed = obs.error is not None or obs.summary() != self.base.summary()
@@ -268,17 +258,17 @@ def corpus(tier):
 
 def mode_for(kind, tier):
     """(max markers, full 3-D product?, 2-marker legs?)."""
-    if tier == "quick":
-        return (1, False, False)
-    if kind in ("hand", "progen1", "progen2"):
-        return (2, True, True)
-    return (1, True, False)
+    if tier == "quick" or kind not in ("hand", "progen1", "progen2"):
+        return (1, False, False)          # two 2-D slices: markers x flags, markers x lists
+    return (2, True, True)                # full 3-D product for <= 1 marker, the two slices for exactly 2 markers
 
 
 def shard(col, tier, k, nshards, seed):
-    from mc import exclusions as ex
+    import logging
+
     from mc import pyn
 
+    logging.disable(logging.CRITICAL)      # "Target scope name ... not found" warnings of the code under test
     pyn.reset_config()
     scratch = os.path.join("/dev/shm" if os.path.isdir("/dev/shm") else "/tmp", f"verif_c08_{os.getpid()}")
     os.makedirs(scratch, exist_ok=True)
@@ -352,7 +342,7 @@ def run(ctx):
     ctx.require(len(ctx.col.sets.get("line_statuses", ())) == 3, "vacuous: EXC / INC / ANY not all produced by the oracle")
     need = {"if-header", "elif", "else", "loop-else", "try-header", "except", "try-else", "finally", "case",
             "match-header", "for-header", "while-header", "with-header", "def", "class", "decorator", "main-guard",
-            "type-checking", "simple", "blank"}
+            "type-checking", "simple", "blank<else", "blank<elif", "blank<finally", "blank<except"}
     got = ctx.col.sets.get("marker_constructs", set())
     ctx.require(need <= got, f"vacuity: no marker ever placed on {sorted(need - got)}")
     need_s = {"def", "method", "class", "nested-def", "nested-class", "decorated-def", "def-in-compound"}
@@ -362,9 +352,10 @@ def run(ctx):
                 and c.get("configs_with_marker", 0) > 0, "vacuous: a configuration dimension was never used")
     ctx.note("corpus", {"modules": c.get("modules"), "hand_written": c.get("modules_hand"),
                         "progen": c.get("modules_progen")})
-    ctx.note("plan", "quick: <=1 marker x 4 flag combinations (no lists) + <=1 marker x all list pairs (default flags); "
-                     "thorough: <=1 marker x flags x lists (full product) for all modules, plus exactly-2-marker "
-                     "placements x flags and x lists for the hand-written modules and progen size <= 2")
+    ctx.note("plan", "quick (hand-written + progen size <= 2) and progen size 3 in thorough: <= 1 marker x 4 flag "
+                     "combinations (no lists) + <= 1 marker x all list pairs (default flags); thorough for hand-written "
+                     "+ progen size <= 2: <= 1 marker x flags x lists (full product) plus exactly-2-marker placements "
+                     "x flags and x lists")
     ctx.exhaustive = True
     ctx.rule = ("one evaluation = one (module, marker placement, flag combination, only_cover, no_cover) configuration "
                 "imported through the real hook and compared with the independent region oracle (plus the "
@@ -379,8 +370,11 @@ def run(ctx):
 
 
 def replay(ctx, data):
+    import logging
+
     from mc import pyn
 
+    logging.disable(logging.CRITICAL)
     pyn.reset_config()
     scratch = ctx.scratch()
     if data.get("leg") == "ignore":
